@@ -172,7 +172,7 @@ SPEC = dict(
     module="LMFootprint.C06",
     harness_bin="footprint",
     ml_modules=["footprint_model"],
-    n={"quick": 3000, "thorough": 40000},
+    n={"quick": 2000, "thorough": 40000},
     search_n={"quick": 6000, "thorough": 40000},
     nontrivial=nontrivial,
     histogram=histogram,
@@ -196,8 +196,9 @@ SPEC = dict(
          "(L, rows, capacity, wrap, M, strides, row range) and the outcome; the driver evaluates the extracted wrapper + footprint "
          "model on that tuple: PROPFAIL = sanitizer report / crash (SIGSEGV on a guard page, abort) / damaged canary in the spare capacity of a "
          "destination / symbol code >= K left in a caller buffer; DIFF = guard outcome "
-         "(panic / early return / rows written) or stride differs from the model, or the extracted checker all_ok rejects a model "
-         "access. Source tie: 497 memory-relevant statements of the 44 functions the model was transcribed from are compared with "
+         "(panic / early return / rows written) or stride differs from the model, the extracted checker check_C06 rejects a model "
+         "access, or the extracted history model (FpHistory.hstep, the subject of C06_histories_partial) replayed on the observed "
+         "pre-state of the op gives another post-state / kernel entry than the implementation. Source tie: 497 memory-relevant statements of the 44 functions the model was transcribed from are compared with "
          "their pinned text, and every `unsafe` must lie inside them. Non-trivial: distinct histories with an op that enters an "
          "unsafe kernel (SIMD arm or native dispatcher), all SSE2-width cases, dense histories with from_rows/fill/clone/iterators.",
     trusted_base=[
